@@ -268,6 +268,27 @@ def monitor_shape(fn, call, passthrough=()):
     return "true"
 
 
+def daemon_start():
+    """core/main.py: `run` ends with `runtime.adopt(_load_services, configuration, flavour=asyncio)` followed by a bare
+    `runtime.accept()` (no handler around it: what accept raises leaves the process), and `_load_services` keeps the
+    loaded configuration alive inside `with load(path):` for as long as it is not cancelled"""
+    import cobald.daemon.core.main as m
+    st = _fn_body(m.run)
+    tail = [ast.unparse(x) for x in st[-2:]]
+    if tail != ["runtime.adopt(_load_services, configuration, flavour=asyncio)", "runtime.accept()"]:
+        raise Untranslatable("run ends with %s" % tail)
+    if any(isinstance(n, (ast.Try, ast.With)) for x in st for n in ast.walk(x)) or sum("runtime." in ast.unparse(x) for x in st) != 2:
+        raise Untranslatable("run wraps or repeats the runtime calls")
+    ls = _fn_body(m._load_services)
+    if len(ls) != 1 or not isinstance(ls[0], ast.With) or [ast.unparse(i.context_expr) for i in ls[0].items] != ["load(path)"] \
+            or [ast.unparse(x) for x in ls[0].body] != ["await asyncio.sleep(float('inf'))"]:
+        raise Untranslatable("_load_services: %s" % [ast.unparse(x)[:60] for x in ls])
+    cr = [ast.unparse(x) for x in _fn_body(m.cli_run)]
+    if len(cr) != 2 or cr[0] != "options = CLI.parse_args()" or not cr[1].startswith("run(configuration=options.CONFIGURATION,"):
+        raise Untranslatable("cli_run: %s" % cr)
+    return '["adopt:_load_services:asyncio", "accept"]'
+
+
 def strs_lean(l):
     return "[" + ", ".join('"%s"' % x.replace("\\", "\\\\").replace('"', '\\"') for x in l) + "]"
 
@@ -345,6 +366,7 @@ def render():
     import cobald.daemon.core.config as core_config
     emit("dispatchYaml", "", "List String", lambda: strs_lean(dispatch_table(core_config.load)["yaml"]))
     emit("dispatchPython", "", "List String", lambda: strs_lean(dispatch_table(core_config.load)["python"]))
+    emit("daemonStart", "", "List String", daemon_start)
     out += ["end Cobald.Gen", ""]
     return "\n".join(out)
 
